@@ -165,6 +165,12 @@ def enumerated(max_len, seed, limit):
     return out
 
 
+SYMBOLIC_ALIGN = [
+    ('align_symN', ['dh 1', G(0), 'align @N0@', 'L1:', 'dw L1', 'db 1', 'align @N1@', 'L2:', 'dw L2']),
+    ('align_symN_code', [FC, G(0), 'align @N0@', 'L1:', F4, 'dw L1', 'dw %offset(L1)']),
+]
+
+
 def relevant(prop, lines):
     """does this template carry an obligation of ``prop``"""
     from .layout import classify, value_expr
